@@ -268,8 +268,8 @@ def split_trace(trace, work, nchunks, begin_key='"e":"Begin"'):
     return paths
 
 
-_v_re = re.compile(r'^<<"V", (-?\d+), (-?\d+), "([^"]*)", "([^"]*)", (".*")>>$')
-_stats_re = re.compile(r'^<<"STATS", ([-\d, ]+)>>$')
+_v_re = re.compile(r'<<\s*"V",\s*(-?\d+),\s*(-?\d+),\s*"([^"]*)",\s*"([^"]*)",\s*("(?:[^"\\]|\\.)*")\s*>>')
+_stats_re = re.compile(r'<<\s*"STATS",\s*"\[([-\d, ]+)\]"\s*>>')
 
 
 def validate(module, cfg, trace, work, nchunks=None, timeout=900, dfs=False, xmx="3g"):
@@ -293,17 +293,13 @@ def validate(module, cfg, trace, work, nchunks=None, timeout=900, dfs=False, xmx
         if r["rc"] == 124:
             raise ToolError("trace validation timed out on " + p)
         got_stats = False
-        for line in r["out"].splitlines():
-            m = _v_re.match(line)
-            if m:
-                viol.append(dict(run=int(m.group(1)), event=int(m.group(2)), prop=m.group(3), clause=m.group(4),
-                                 detail=json.loads(json.loads(m.group(5)))))
-                continue
-            m = _stats_re.match(line)
-            if m:
-                got_stats = True
-                nums = [int(x) for x in m.group(1).split(",")]
-                stats = nums if stats is None else [a + b for a, b in zip(stats, nums)]
+        for m in _v_re.finditer(r["out"]):
+            viol.append(dict(run=int(m.group(1)), event=int(m.group(2)), prop=m.group(3), clause=m.group(4),
+                             detail=json.loads(json.loads(m.group(5)))))
+        for m in _stats_re.finditer(r["out"]):
+            got_stats = True
+            nums = [int(x) for x in m.group(1).split(",")]
+            stats = nums if stats is None else [a + b for a, b in zip(stats, nums)]
         states += r["distinct"]
         if not got_stats:
             log(r["out"][-4000:])
